@@ -9,6 +9,7 @@ checks = [c["property_id"] for c in json.load(open(os.path.join(ROOT, "MANIFEST.
 only = sys.argv[1].split(",") if len(sys.argv) > 1 else None
 def clean():
     subprocess.run(["git", "-C", REPO, "checkout", "--", "."], check=True)
+    subprocess.run(["git", "-C", REPO, "clean", "-fdq", "contracts", "packages"], check=True)  # files a patch added
 assert subprocess.run(["git", "-C", REPO, "status", "--porcelain", "--untracked-files=no"], stdout=subprocess.PIPE, text=True).stdout.strip() == "", "repo not clean"
 res = []
 try:
